@@ -435,7 +435,11 @@ func UnmarshalError(r xml.TokenReader) (Error, error) {
 	iter := xmlstream.NewIter(r)
 	for iter.Next() {
 		start, p := iter.Current()
-		if start == nil || start.Name.Local != "error" {
+		// The error payload is in the stanza's namespace (or inherits it): a
+		// child called error in an application namespace is part of the echoed
+		// request, not the error.
+		if start == nil || start.Name.Local != "error" ||
+			(start.Name.Space != "" && start.Name.Space != NSClient && start.Name.Space != NSServer) {
 			continue
 		}
 
